@@ -46,4 +46,14 @@ done <<'MAP'
 50 C16 C05
 51 C20
 52 C13
+61 C12 C06 C16 C13
+62 C13 C08 C04 C07
+63 C10 C04 C01
+64 C11 C10 C03 C17 C18
+65 C15 C11 C03
+66 C08 C04 C07 C02
+67 C17 C04 C05
+68 C18
+69 C14 C05
+70 C20 C19
 MAP
